@@ -30,7 +30,7 @@ fn small_or_rand<F: PrimeField>(rng: &mut impl RngCore) -> F {
 fn rand_lc<F: PrimeField>(label: &str, rng: &mut impl RngCore) -> LinearCombination<F> {
     // mostly 0..4 terms; one operand in thirty is long (up to 400 terms with repeated labels and constants)
     let nterms = if rng.next_u32() % 30 == 0 { 20 + (rng.next_u32() % 380) as usize } else { (rng.next_u32() % 5) as usize };
-    let mut lc = LinearCombination::empty(label);
+    let mut terms: Vec<(F, LCTerm)> = Vec::new();
     for _ in 0..nterms {
         let c = small_or_rand::<F>(rng);
         let t = if rng.next_u32() % 5 == 0 {
@@ -38,9 +38,34 @@ fn rand_lc<F: PrimeField>(label: &str, rng: &mut impl RngCore) -> LinearCombinat
         } else {
             LCTerm::PolyLabel(LABELS[(rng.next_u32() % 5) as usize].to_string())
         };
-        lc.push((c, t));
+        terms.push((c, t));
     }
-    lc
+    // three ways of building the same combination: push on an empty one, `new` from LCTerm values,
+    // `new` from label strings (only when no constant term takes part)
+    match rng.next_u32() % 3 {
+        0 => {
+            let mut lc = LinearCombination::empty(label);
+            for t in terms {
+                lc.push(t);
+            }
+            lc
+        }
+        1 => LinearCombination::new(label, terms),
+        _ => {
+            if terms.iter().all(|(_, t)| !t.is_one()) {
+                let v: Vec<(F, String)> = terms
+                    .iter()
+                    .map(|(c, t)| match t {
+                        LCTerm::PolyLabel(l) => (*c, l.clone()),
+                        LCTerm::One => unreachable!(),
+                    })
+                    .collect();
+                LinearCombination::new(label, v)
+            } else {
+                LinearCombination::new(label, terms)
+            }
+        }
+    }
 }
 
 fn value<F: PrimeField>(lc: &LinearCombination<F>, asg: &BTreeMap<String, F>) -> F {
@@ -63,7 +88,7 @@ fn lc_case<F: PrimeField>(ctx: &mut Ctx, rng: &mut impl RngCore) {
     let mut ops = Vec::new();
     for _ in 0..nops {
         let kind = rng.next_u32() % 7;
-        let other = rand_lc::<F>("opnd", rng);
+        let other = if rng.next_u32() % 10 == 0 { lc.clone() } else { rand_lc::<F>("opnd", rng) };
         let ov = value(&other, &asg);
         let c = small_or_rand::<F>(rng);
         let name;
